@@ -157,6 +157,20 @@ theorem decrypt_msg (H : Bytes → Bytes) (D : Bytes → Bytes → Bytes) (hH : 
 
 example : (∀ x, (lenHash x).length = 20) ∧ 136 ≤ (zeros 256).length := ⟨lenHash_length, by simp⟩
 
+/-- **A key the schedule cannot work with is refused, not a reason to end the program** (D20): `Encrypt` with
+an auth key shorter than 128 bytes and `Decrypt` with one shorter than 136 — in particular the empty key of a
+session whose key exchange has not finished — return an error for every message / ciphertext. -/
+theorem short_key_refused (H : Bytes → Bytes) (E D : Bytes → Bytes → Bytes) (msg ct key mk : Bytes) :
+    (key.length < 128 → encryptMsg H E msg key = .err "shortKey") ∧
+    (key.length < 136 → decryptMsg H D ct key mk = .err "shortKey") := by
+  constructor
+  · intro h
+    simp [encryptMsg, keysG, h]
+  · intro h
+    simp [decryptMsg, keysG, h]
+
+example : ([] : Bytes).length < 128 ∧ (zeros 135).length < 136 := by simp
+
 /-! ## the key-exchange wrapper -/
 
 /-- **The temporary key and IV equal the MTProto definition on the fixed-width nonces**, for ALL
